@@ -19,6 +19,7 @@ RULE = ('cases: C03 programs with several wait() calls at any grid instant (idle
         'non-idle state; distinct by case hash')
 ASSUMPTIONS = ['whether the function is flushed once more at shutdown is not judged (statement only demands termination)',
                'cooperative shims faithful (selftest)', 'no foreign thread in shutdown cases']
+CORPUS_PREEMPTIONS = {}
 BUDGET = {'quick': 250, 'thorough': 6000}
 ESSENTIAL = ['nontrivial', 'shutdown-non-idle', 'overlapping-waits']
 valid = B.valid
